@@ -14,13 +14,16 @@
    _partial on the statements that speak about validity.
 
    Vocabulary (Proofs.v): [reach s C hm] — s reachable from the initial state by any sequence
-   of contract additions, batches and resets; C = processed best chain since the last reset
+   of contract additions, renewals negotiated at RPC time (RenewV2Contract: renewed_to of the old
+   contract is set and a pending row for the new one added, with no chain event — the renewal
+   may then be confirmed by a later batch, never, or be confirmed and reverted: the batches are
+   arbitrary), batches and resets; C = processed best chain since the last reset
    (head = tip), hm = highest height processed since then.  [wf_batch]: a batch reverts the
    top blocks of C (with their own content) and the resulting chain is [linked] (parent
    pointers, consecutive heights, unique block ids).  Nothing is assumed about which contract
    events the blocks carry. *)
 From HostdBase Require Import Base.
-From HostdElements Require Import Model Proofs ProofsTotal.
+From HostdElements Require Import Model Proofs ProofsTotal ProofsSel.
 
 (* every well-formed operation list run through the model's [step] ends in a [reach]able state *)
 Theorem c17_histories : forall l, wf_ops init [] l ->
@@ -86,7 +89,99 @@ Print Assumptions c17_reset.
 Example c17_nonvacuous :
   reach (runs init wit_ops1) [wb2; wb1; wb0] 2 /\
   snd (step (runs init wit_ops1) Observe) =
-    OState [(1%N, true, 2%N)] [(ix 0 1, true); (ix 1 2, true); (ix 2 3, true)] (Some (ix 2 3)) /\
+    OState [(1%N, true, 2%N)] [(ix 0 1, true); (ix 1 2, true); (ix 2 3, true)] (Some (ix 2 3)) [] /\
   reach (runs init wit_ops) [wb1'; wb0] 2 /\
-  snd (step (runs init wit_ops) Observe) = OState [] [(ix 0 1, true); (ix 1 4, true)] (Some (ix 1 4)).
+  snd (step (runs init wit_ops) Observe) = OState [] [(ix 0 1, true); (ix 1 4, true)] (Some (ix 1 4)) [].
 Proof. exact nonvacuous_witness. Qed.
+
+(** * Which rows the refresh touches; renewals negotiated but not (yet) confirmed *)
+
+(* RenewV2Contract is no chain event: element tables and tip marker are untouched *)
+Theorem c17_renewal_negotiation_leaves_elements : forall s c r,
+  let s' := fst (step s (Renew c r)) in celems s' = celems s /\ ielems s' = ielems s /\ tip s' = tip s.
+Proof. exact renew_fields. Qed.
+Print Assumptions c17_renewal_negotiation_leaves_elements.
+
+(* in every reachable state — in particular while a renewal of the contract is negotiated and
+   unconfirmed, after it was reverted, or if it never confirms — every stored contract element
+   belongs to a confirmed contract row (active or resolved; never pending/rejected), and its proof
+   is for the processed tip, whatever the row's status and renewed_to *)
+Theorem c17_every_stored_element_refreshed_partial : forall s C hm e, reach s C hm -> In e (celems s) ->
+  confirmed_row (contracts s) (ce_cid e) /\
+  exists t, tip s = Some t /\ ce_basis e = Some t /\ valid_at (tip s) (ce_basis e) = true.
+Proof. exact element_valid_whatever_renewed. Qed.
+Print Assumptions c17_every_stored_element_refreshed_partial.
+
+(* the selection of the refresh may be any predicate on (status, renewed_to) that covers the
+   confirmed rows: such a model reaches only states of the code's model (which reads every row),
+   so everything above holds for it *)
+Theorem c17_covering_selection_suffices : forall sel s C hm,
+  covering sel -> greach sel s C hm -> reach s C hm.
+Proof. exact covering_selection_is_code. Qed.
+Print Assumptions c17_covering_selection_suffices.
+
+(* ... and a selection that skips a stored row falsifies basis = tip: across a block that has no
+   event of the contract the row keeps its proof, whose basis is then the parent of the tip *)
+Theorem c17_skipped_row_goes_stale : forall sel s b s' e,
+  batch_g sel s [] [b] = Ok s' -> idx_eqb (b_parent b) (b_idx b) = false ->
+  (forall ev, In ev (b_events b) -> ev_cid ev <> ce_cid e) ->
+  In e (celems s) -> ce_basis e = Some (b_parent b) ->
+  row_sel sel (contracts s) (renewed s) e = false ->
+  tip s' = Some (b_idx b) /\ In e (celems s') /\ valid_at (tip s') (ce_basis e) = false.
+Proof. exact skipped_row_goes_stale. Qed.
+Print Assumptions c17_skipped_row_goes_stale.
+
+(* the refresh narrowed to rows WHERE renewed_to IS NULL: on the history "contract 1 formed,
+   renewal negotiated, one block without the renewal" the element of contract 1 — still active,
+   the host must resolve it — is not valid at the tip; nor after the renewal confirmed and was
+   reorged out *)
+Theorem c17_selection_narrowed_on_renewed_to_refuted :
+  wf_ops init [] ren_ops1 /\
+  alookup 1%N (contracts (runs_g sel_not_renewed init ren_ops1)) = Some SActive /\
+  snd (step_g sel_not_renewed (runs_g sel_not_renewed init ren_ops1) Observe) =
+    OState [(1%N, false, 0%N)] [(ix 0 1, true); (ix 1 2, true); (ix 2 5, true)] (Some (ix 2 5)) [(1%N, 2%N)] /\
+  snd (step_g sel_not_renewed (runs_g sel_not_renewed init ren_ops3) Observe) =
+    OState [(1%N, false, 0%N)] [(ix 0 1, true); (ix 1 2, true); (ix 2 5, true); (ix 3 7, true); (ix 4 8, true)]
+           (Some (ix 4 8)) [(1%N, 2%N)] /\
+  alookup 1%N (contracts (runs_g sel_not_renewed init ren_ops3)) = Some SActive.
+Proof. exact narrowed_on_renewed_to_refuted. Qed.
+Print Assumptions c17_selection_narrowed_on_renewed_to_refuted.
+
+(* the refresh narrowed to unresolved contracts (resolution_index IS NULL): refuted by a reorg
+   that disconnects the resolution *)
+Theorem c17_selection_narrowed_on_resolution_refuted :
+  wf_ops init [] ren_ops3 /\
+  alookup 1%N (contracts (runs_g sel_unresolved init ren_ops3)) = Some SActive /\
+  snd (step_g sel_unresolved (runs_g sel_unresolved init ren_ops3) Observe) =
+    OState [(1%N, false, 0%N)] [(ix 0 1, true); (ix 1 2, true); (ix 2 5, true); (ix 3 7, true); (ix 4 8, true)]
+           (Some (ix 4 8)) [(1%N, 2%N)].
+Proof. exact narrowed_on_resolution_refuted. Qed.
+Print Assumptions c17_selection_narrowed_on_resolution_refuted.
+
+(* elements are dropped exactly when the property allows: on lifecycle histories a contract of
+   the host whose formation is on the processed chain has a stored element (the converse of
+   c17_formation_reverted_element_dropped; a reset drops all of them, c17_reset) *)
+Theorem c17_confirmed_contract_has_element : forall s C c, lreach s C -> known s c = true ->
+  (exists b, In b C /\ formed_in c b) -> exists e, In e (celems s) /\ ce_cid e = c.
+Proof. exact confirmed_contract_has_element. Qed.
+Print Assumptions c17_confirmed_contract_has_element.
+
+(* non-vacuity with a renewal: negotiated and unconfirmed while a block is processed (element of
+   the old contract valid, contract active); confirmed later (old contract renewed, both elements
+   valid); reorged out (old contract active again, element valid, the renewal's element dropped) *)
+Example c17_renewal_nonvacuous :
+  reach (runs init ren_ops1) [rb2; wb1; wb0] 2 /\
+  snd (step (runs init ren_ops1) Observe) =
+    OState [(1%N, true, 0%N)] [(ix 0 1, true); (ix 1 2, true); (ix 2 5, true)] (Some (ix 2 5)) [(1%N, 2%N)] /\
+  alookup 1%N (contracts (runs init ren_ops1)) = Some SActive /\
+  reach (runs init ren_ops2) [rb3; rb2; wb1; wb0] 3 /\
+  snd (step (runs init ren_ops2) Observe) =
+    OState [(1%N, true, 0%N); (2%N, true, 0%N)] [(ix 0 1, true); (ix 1 2, true); (ix 2 5, true); (ix 3 6, true)]
+           (Some (ix 3 6)) [(1%N, 2%N)] /\
+  alookup 1%N (contracts (runs init ren_ops2)) = Some SRenewed /\
+  reach (runs init ren_ops3) [rb4'; rb3'; rb2; wb1; wb0] 4 /\
+  snd (step (runs init ren_ops3) Observe) =
+    OState [(1%N, true, 0%N)] [(ix 0 1, true); (ix 1 2, true); (ix 2 5, true); (ix 3 7, true); (ix 4 8, true)]
+           (Some (ix 4 8)) [(1%N, 2%N)] /\
+  alookup 1%N (contracts (runs init ren_ops3)) = Some SActive.
+Proof. exact renewal_witness. Qed.
